@@ -358,6 +358,53 @@ pub fn run(tier: Tier) -> i32 {
             }
         }
     }
+    // the registry that counts is the one the expression was compiled on, wherever the call stands: a runtime with
+    // every builtin except one -- the missing name is unknown at top level, behind a pipe, in a projection, in a
+    // filter, as an argument, and inside the expression reference of map / sort_by / max_by / min_by; a custom
+    // function registered only there is found in all of those places (searched on the document 1: a multi-select on a null document is null without evaluating anything)
+    {
+        let places = [
+            "F(`1`)", "`1` | F(@)", "[`1`][*].F(@)", "[`1`][?F(@)]", "not_null(F(`1`))", "[F(`1`)]", "{a: F(`1`)}",
+            "map(&F(@), `[1]`)", "sort_by(`[1, 2]`, &F(@))", "max_by(`[1]`, &F(@))", "min_by(`[1, 2]`, &F(@))", "sort_by(`[2, 1]`, &F(@))[0]", "map(&[F(@)], `[1]`)", "sort_by(`[1, 2]`, &not_null(F(@), @))",
+        ];
+        for s in signatures() {
+            let mut rt = jmespath::Runtime::new();
+            rt.register_builtin_functions();
+            rt.deregister_function(s.name);
+            for pl in places {
+                let src = pl.replace('F', s.name);
+                // the wrapper itself may be the missing function: unknown-function either way
+                st.states += 1;
+                st.evaluations += 1;
+                st.validated += 1;
+                let r = guarded(|| rt.compile(&src).unwrap().search(1).map(|v| v.to_string()).map_err(|e| crate::implx::classify(&e)));
+                if !matches!(&r, Ok(Err(crate::implx::IClass::Rt(crate::reval::ErrClass::UnknownFunction)))) {
+                    st.violate(Violation { key: format!("C06/unregistered-name/{}", s.name), check: "unregistered".into(), case: json!({"kind": "unregistered", "name": s.name, "runtime": "all builtins but this one", "expression": src}), expected: "unknown-function".into(), actual: format!("{:?}", r) });
+                } else {
+                    st.outcome("unknown function");
+                }
+            }
+        }
+        let mut rt = jmespath::Runtime::new();
+        rt.register_builtin_functions();
+        rt.register_function("cf", Box::new(|args: &[jmespath::Rcvar], _: &mut jmespath::Context<'_>| Ok(args[0].clone())));
+        for (pl, want) in [
+            ("F(`1`)", "1"), ("`1` | F(@)", "1"), ("[`1`][*].F(@)", "[1]"), ("[`1`][?F(@)]", "[1]"), ("not_null(F(`1`))", "1"), ("[F(`1`)]", "[1]"), ("{a: F(`1`)}", "{\"a\":1}"),
+            ("map(&F(@), `[1]`)", "[1]"), ("sort_by(`[2, 1]`, &F(@))", "[1,2]"), ("max_by(`[1, 2]`, &F(@))", "2"), ("min_by(`[1, 2]`, &F(@))", "1"), ("map(&[F(@)], `[1]`)", "[[1]]"), ("sort_by(`[2, 1]`, &not_null(F(@), @))", "[1,2]"),
+        ] {
+            let src = pl.replace('F', "cf");
+            st.states += 1;
+            st.evaluations += 1;
+            st.validated += 1;
+            let r = guarded(|| rt.compile(&src).unwrap().search(1).map(|v| v.to_string()).map_err(|e| crate::implx::classify(&e)));
+            if !matches!(&r, Ok(Ok(v)) if v == want) {
+                st.violate(Violation { key: "C06/registered-name-not-found".into(), check: "unregistered".into(), case: json!({"kind": "unregistered", "name": "cf", "runtime": "builtins + cf", "expression": src}), expected: want.into(), actual: format!("{:?}", r) });
+            } else {
+                st.nontrivial += 1;
+                st.outcome("value");
+            }
+        }
+    }
     let model_err: u64 = st.counters.iter().filter(|(k, _)| k.starts_with("MODEL_ERROR")).map(|(_, v)| *v).sum();
     rep.guard("every generated call parses in the reference", model_err == 0);
     rep.guard("all outcome classes occur", ["invalid-arity", "invalid-type", "unknown function", "value"].iter().all(|k| st.outcomes.get(*k).cloned().unwrap_or(0) > 10));
